@@ -172,6 +172,30 @@ Definition supps (k : nat) (l : list stmt) : bool := forallb (supp k) l.
 
 
 
+(* the fragment predicate with one switch: [supp2 true] also excludes `fallthrough` (needed where the legality of the
+   output is derived, P3Legal.v: the placement of a source fallthrough is not tracked); [supp2 false] is Side.supp *)
+Fixpoint supp2 (sf : bool) (k : nat) (s : stmt) {struct k} : bool :=
+  match k with 0 => false | S k =>
+    match s with
+    | SAtom _ | SYield _ | SBreak | SContinue => true
+    | SFallthrough => negb sf
+    | SRet XReturn => true
+    | SBlock b => forallb (supp2 sf k) b
+    | SIf i c t e =>
+        init_ok i && forallb (supp2 sf k) t &&
+        match e with
+        | ENone => true
+        | EElse b => forallb (supp2 sf k) b
+        | EElif x => is_if x && supp2 sf k x
+        end
+    | SFor i c p b => init_ok2 i && post_okb k p b && forallb (supp2 sf k) b
+    | SSwitch i t cs => init_ok2 i && forallb (fun lb => clause_ok (supp2 sf k) k (snd lb)) cs
+    | _ => false
+    end
+  end.
+Definition supps2 (sf : bool) (k : nat) (l : list stmt) : bool := forallb (supp2 sf k) l.
+
+
 (* pass0 followed by pass2: the callback body before pass3 *)
 Definition pass12 (body : list stmt) : res (list stmt) :=
   let body0 := map (pass0 400) body in
@@ -190,12 +214,22 @@ Definition c01_hyps (body : list stmt) : bool :=
   end.
 
 
+(* the side conditions of the compiler theorem for bodies without `fallthrough`: they concern the INPUT only (fragment,
+   nesting depth of the program and of the intermediate code); legality of the output is a theorem (P3Legal.v) *)
+Definition c01_hyps_nf (body : list stmt) : bool :=
+  match pass12 body with
+  | OK mid => supps2 true KS (map (pass0 400) body) && forallb (fitsb KS) body && forallb (fitsb KS) mid
+  | _ => false
+  end.
+
 (* classification used by the correspondence check: 0 the model rejects the program; 1 it
    accepts but its output is not legal in the sense of [legalb]; 2 legal but outside the
    fragment the C01 theorem covers; 3 all side conditions of the C01 theorem hold; 4 also those of the
-   end-to-end theorem down to the machine model of seq.go (Link.v: no native Yield left in the output) *)
+   end-to-end theorem down to the machine model of seq.go (Link.v: no native Yield left in the output);
+   plus 10 when the input-only side conditions [c01_hyps_nf] hold (legality of the output is then a theorem) *)
 Definition hyp_code (body : list stmt) : nat :=
   match rewrite body with
   | Err _ => 0
-  | OK out => if legalb KS out then (if c01_hyps body then (if forallb (lk KS) out then 4 else 3) else 2) else 1
+  | OK out => (if legalb KS out then (if c01_hyps body then (if forallb (lk KS) out then 4 else 3) else 2) else 1)
+              + (if c01_hyps_nf body then 10 else 0)
   end.
